@@ -43,6 +43,12 @@ def canon(obj):
 # Names
 # ---------------------------------------------------------------------------
 
+def evo_label(i, prefix=''):
+    """Label of the (i+1)-th evolution of an app.  The alphabetical order of
+    the labels deliberately differs from their SEQUENCE order."""
+    return '%s%se%d' % (prefix, 'mcxak'[i % 5], i + 1)
+
+
 def table_name(app_label, model):
     """db_table of a model spec."""
     t = (model.get('meta') or {}).get('db_table')
